@@ -98,6 +98,22 @@ def text(obj):
         t = obj.codon_usage_table
         ca = ",".join("%s=%s" % (c, a) for c, a in obj.codons_translations.items())
         return "CAI %s %s %s %s" % (kv(t["log_codons_frequencies"]), kv(t["log_best_frequencies"]), ca, loctok(obj.location))
+    if n == "UniquifyAllKmers":
+        d = obj.localization_data
+        if d is None:
+            data = "-"
+        else:
+            def ints(x):
+                return ",".join(str(int(i)) for i in sorted(x)) if x else "_"
+
+            def sqs(x):
+                return ",".join(stok(v) for v in sorted(x)) if x else "_"
+            data = "%s;%s;%s;%s" % (sqs(d["location"]["fixed_kmers"]), ints(d["location"]["changing_indices"]),
+                                    sqs(d["extended"]["fixed_kmers"]), ints(d["extended"]["changing_indices"]))
+        return "Kmers %d %s %s %s %s" % (obj.k, str(bool(obj.include_reverse_complement)).lower(), loctok(obj.location),
+                                         loctok(obj.reference), data)
+    if n == "AvoidHairpins":
+        return "Hairpins %d %d %s" % (obj.stem_size, obj.hairpin_window, loctok(obj.location))
     return None
 
 
@@ -135,13 +151,27 @@ def compare_eval(model, impl):
     return locs == l2 and abs(m - a) <= 1e-9 * max(1.0, abs(a))
 
 
+def compare_eval_unordered(model, impl):
+    """as compare_eval, the locations compared as a multiset (set/dict iteration order in the code)"""
+    if impl == "raises" or model == "raises":
+        return model == impl
+    try:
+        sc, locs = model.split(" ; ")
+        m = bits_to_float(sc)
+    except Exception:
+        return False
+    a, l2 = impl
+    return sorted(locs.split(",")) == sorted(l2.split(",")) and abs(m - a) <= 1e-9 * max(1.0, abs(a))
+
+
 # ------------------------------------------------------------------------------------------
 # generators: description dicts for every modelled class (re-using gen.problems / gen.hard builders)
 
 def rand_spec_desc(rng, seq, kinds=None):
     n = len(seq)
     kinds = kinds or ["pattern", "insert", "gcwin", "gcglobal", "cds", "stop", "keep", "keep_idx", "keep_edits", "change",
-                      "change_idx", "change_obj", "change_min", "sequence", "choice", "terminal", "length", "rare", "cai"]
+                      "change_idx", "change_obj", "change_min", "sequence", "choice", "terminal", "length", "rare", "cai",
+                      "kmers", "hairpin"]
     k = rng.choice(kinds)
     if k in ("keep", "keep_idx", "cds", "rare", "sequence", "choice", "change", "change_idx"):
         return hard.rand_hard_constraint(rng, seq, [k if k != "change_idx" else "change"])
